@@ -89,7 +89,7 @@ def report(chk, prop, c01, c04):
                       {"input": v["input"], "bytes": v.get("bytes"), "problem": b})
     for b, v in (c01 if prop == "C01" else []):
         what = "hang" if "hang" in b else "panic" if "panic" in b else "internal-error" if "internal" in b else "nontermination"
-        where = b.split(":")[0][4:60]
+        where = b.split(":")[0][4:].split(" converting")[0][:60]
         chk.violation({"engine": "lex", "what": what, "where": where}, f"input {v['input']!r}: {b}", {"input": v["input"], "bytes": v.get("bytes"), "problem": b})
 
 
